@@ -131,3 +131,11 @@ chk("C17", "fault_enumeration", "exhaustive single-allocation-failure injection 
     "Only allocations routed through jwt_set_alloc (libjwt + jansson) fail; single faults; leaks under OOM not judged. Five open "
     "known findings are jansson-internal (jansson 2.14 ignores allocation failures in its parser, dumper and update_missing).",
     "DESIGN.md 3/C17")
+chk("C18", "exploration", "ThreadSanitizer stress with injected scheduling delays + differential against a sequential pre-pass (also run under ASan)",
+    "8 threads x 300 ops x 3 repeats x 2 providers (quick) / 16 x 1200 x 8 x 2 (thorough) on the TSan build: own builders and "
+    "checkers per thread, one shared keyring with 9 keys, randomised start skew, and an allocator (jwt_set_alloc) that "
+    "yields/sleeps at random inside library calls. Every result is compared with the sequential pre-pass (token bytes for "
+    "HS*/RS*/EdDSA, header+payload and reference verification otherwise). TSan reports with libjwt frames are violations. "
+    "The evidence states thread-operations, overlapping same-key operation pairs (proof of actual concurrency) and injected yields; "
+    "a repeat with too few overlaps makes the run inconclusive.",
+    "Schedules are sampled. Races inside uninstrumented libraries are invisible. Helgrind not used (cost, noise).", "DESIGN.md 3/C18")
